@@ -73,12 +73,18 @@ theorem sabaStepOps_safe (c : SabaConfig) (r : Bool) :
     simp [sabaStepOps, sabaPart1Ops, sabaPart2Ops, sabaSyncOps, initF, sabaDrift, sabaTail, sabaSyncMid,
       List.append_assoc, SabaConfig.mode]
 
-theorem sabaStepOps_unsafe' (c : SabaConfig) (g : Flags) (hg : g.allocated = true) :
+theorem sabaStepOps_unsafe' (c : SabaConfig) (g : Flags) (hg : g.allocated = true)
+    (hr : g.isSync = false → g.recalc = false) :
     sabaStepOps (c.mode false false) g =
       ([.sabaInit (c.type ≥ 0x100), .init] ++ (if g.recalc then [Prim.fromInertial] else []) ++
         sabaDrift c g.isSync ++ sabaTail c ++ [.advT (.frac 1 1)],
        { isSync := false, recalc := false, allocated := true }) := by
   have := sabaStepOps_unsafe (c.mode false false) rfl g hg
+  have e : (g.isSync || g.recalc && (c.mode false false).p1fix) = g.isSync := by
+    cases hi : g.isSync
+    · simp [hr hi]
+    · simp
+  rw [e] at this
   simpa using this
 
 theorem sabaSyncOps_unsafe_unsync (c : SabaConfig) (r a : Bool) :
@@ -125,7 +131,7 @@ theorem sinv_step {S : Sem T PJ X V A} {c : SabaConfig} (L : SabaLaws S c)
   rw [sabaApply_step, sabaApply_step]
   cases h with
   | fresh h1 h2 h3 =>
-    rw [← sabaStepOps_initF _ u.1, ← sabaStepOps_initF _ v.1, h2, h3, sabaStepOps_unsafe' c _ rfl,
+    rw [← sabaStepOps_initF _ u.1, ← sabaStepOps_initF _ v.1, h2, h3, sabaStepOps_unsafe' c _ rfl (by simp),
       sabaStepOps_safe]
     have hj := saba_step_join S c (exec S ([.sabaInit (c.type ≥ 0x100), .init, .fromInertial] ++ sabaDrift c true) u.2)
       (exec S ([.sabaInit (c.type ≥ 0x100), .init, .fromInertial] ++ sabaDrift c true) v.2) (by rw [h1])
@@ -135,7 +141,7 @@ theorem sinv_step {S : Sem T PJ X V A} {c : SabaConfig} (L : SabaLaws S c)
     · exact hj.2.1
     · exact hj.2.2
   | unsync h1 h2 h3 h4 h5 =>
-    rw [h1, h2, sabaStepOps_unsafe' c _ rfl, sabaStepOps_safe]
+    rw [h1, h2, sabaStepOps_unsafe' c _ rfl (by simp), sabaStepOps_safe]
     have hw : (exec S [.sabaInit (c.type ≥ 0x100), .init, .fromInertial] v.2).pj = (exec S (sabaSyncMid c) u.2).pj := by
       simp only [exec, denote]; rw [h4, h5, L.from_to, h3]
     have hd := saba_merge L u.2 _ hw
@@ -148,7 +154,7 @@ theorem sinv_step {S : Sem T PJ X V A} {c : SabaConfig} (L : SabaLaws S c)
     · exact hj.2.1
     · exact hj.2.2
   | synced h1 h2 h3 h4 h5 h6 h7 =>
-    rw [h1, h2, sabaStepOps_unsafe' c _ rfl, sabaStepOps_safe]
+    rw [h1, h2, sabaStepOps_unsafe' c _ rfl (by simp), sabaStepOps_safe]
     have hw : (exec S [.sabaInit (c.type ≥ 0x100), .init, .fromInertial] v.2).pj =
         (exec S [.sabaInit (c.type ≥ 0x100), .init] u.2).pj := by
       simp only [exec, denote]; rw [h6, h7, L.from_to, h3]
